@@ -171,7 +171,18 @@ pub fn generate(prop: &str, tier: &str, r: &mut Rng, out: &mut Vec<String>) -> G
             for i in 0..n {
                 let mut rr = r.fork();
                 let u = crate::gen2::gen_uri(&mut rr);
-                if i % 4 == 3 {
+                if i % 50 == 49 {
+                    // targets in authority form (`host[:port]`, no scheme): at the edge of the property's quantifier; the
+                    // http crate accepts them and the model must say what the code does with them
+                    let kind = *rr.pick(&crate::gen2::KINDS[..11]);
+                    let args = crate::gen2::gen_build_args(&mut rr, kind);
+                    let odd = *rr.pick(&["printer.local", "printer.local:631", "10.0.0.7:8631", "[::1]:631", "uSeRmArK@host:631", "uSeRmArK:pAsSmArK@printer.local"]);
+                    let mut toks: Vec<String> = args.splitn(3, ' ').map(|t| t.to_string()).collect();
+                    if toks.len() == 3 && toks[1] != "~" {
+                        toks[1] = hex(odd.as_bytes());
+                    }
+                    out.push(format!("build {}", toks.join(" ")));
+                } else if i % 4 == 3 {
                     let kind = *rr.pick(&crate::gen2::KINDS[..11]);
                     out.push(format!("build {}", crate::gen2::gen_build_args(&mut rr, kind)));
                 } else {
